@@ -150,8 +150,20 @@ func jobsFor(prop, tier string) []Job {
 			}
 		}
 	case "C11":
-		for _, jb := range jsonContainerJobs(q, pick(4, 6), pick(4, 5)) {
+		cj := jsonContainerJobs(q, pick(4, 6), pick(4, 5))
+		// large containers (data-independent elements): past every growth / memoisation threshold
+		dn := pick(36, 70)
+		for _, c := range []string{"arraylist", "singlylinkedlist", "doublylinkedlist", "arraystack", "arrayqueue", "linkedliststack", "linkedlistqueue", "binaryheap", "priorityqueue"} {
+			cj = append(cj, cjob{c + ".deep", 8, map[string]string{"c": c}, map[string]int{"n": dn, "deep": 1}})
+		}
+		for _, cp := range []int{8, 16} {
+			cj = append(cj, cjob{fmt.Sprintf("circularbuffer%d.deep", cp), 4, map[string]string{"c": "circularbuffer"}, map[string]int{"cap": cp, "deep": 1}})
+		}
+		for _, jb := range cj {
 			jb.p["depth"] = pick(2, 3)
+			if jb.p["deep"] == 1 {
+				jb.p["depth"] = 1
+			}
 			add("json11", jb.id, jb.w, jb.s, jb.p)
 		}
 	case "C12":
